@@ -156,7 +156,20 @@ def main():
             c = json.loads(p.read_text())
             c["_origin"] = f"corpus/{prop}/{p.name}"
             corpus_cases.append(c)
+    script_hits = {}
     for i, e in enumerate(findings):
+        if isinstance(e.get("witness"), dict) and e["witness"].get("kind") == "script":
+            # a finding whose witness is a stand-alone reproducer (findings/*.py, exit status 1 while the defect is present,
+            # run against the tree under test); it is not a case of the property's generator
+            import subprocess
+
+            sp = VERIF / e["witness"]["script"]
+            try:
+                r_ = subprocess.run(["/venv/bin/python", str(sp)], env={**os.environ, "LCM_WT": str(REPO)}, capture_output=True, text=True, timeout=900)
+                script_hits[e["id"]] = (r_.returncode, (r_.stdout + r_.stderr)[-600:])
+            except Exception as ex:  # noqa: BLE001
+                script_hits[e["id"]] = (None, str(ex)[:300])
+            continue
         if e.get("witness") is not None:
             c = dict(e["witness"])
             c["_origin"] = f"finding:{e['status']}:{i}"
@@ -237,6 +250,15 @@ def main():
             reported_known.add(hit["id"])
         else:
             fresh.append(v)
+    for e in findings:
+        if e["id"] in script_hits:
+            rc_, tail_ = script_hits[e["id"]]
+            if rc_ == 1 and e["status"] == "known":
+                reported_known.add(e["id"])
+            elif rc_ == 1 and e["status"] == "fixed":
+                fresh.append({"clause": f"finding {e['id']} (recorded as fixed) is back", "detail": tail_, "key": e.get("key"), "case": {"script": e["witness"]["script"]}})
+            elif rc_ not in (0, 1):
+                print(f"note: reproducer of finding {e['id']} did not run cleanly (status {rc_}): {tail_[-200:]}")
     for e in known:
         if e["id"] in reported_known:
             lines.append(f"KNOWN-FINDING: property={prop} {e['what_fails']}")
